@@ -166,7 +166,7 @@ def main(chk):
     # translator-independent sanity: the native size is within the bound on long streams of several shapes (also the confirmation path of R)
     pj = []
     for name in ALL:
-        for nn in ((2, 3, 4, 8) if IND[name]['np'] else (1,)):
+        for nn in ((1, 2, 3, 4, 8) if IND[name]['np'] else (1,)):
             pj.append((probe_family, (name, nn), {}))
     pres = run_jobs(pj)
     chk.add([r for r in pres if r['status'] != 'ok'])
